@@ -1122,6 +1122,45 @@ func (l *Life) SweepScenario(tag string) {
 	}
 }
 
+// LeanMultiScenario: more than 1024 documents with a multi-valued field in which a term occurs in both values of
+// 600..800 documents: the number of (value, term) occurrences and the number of documents having the term lie on
+// different sides of 1024, so whoever counts the wrong one picks another chunk size than the reader derives.
+func (l *Life) LeanMultiScenario(tag string) {
+	l.Reset(1024, tag)
+	l.light = true
+	n := 1100 + l.r.Intn(200)
+	from := n - 600 - l.r.Intn(200)
+	docs := make([]Doc, n)
+	for i := range docs {
+		id := B(fmt.Sprintf("m%05d", i))
+		d := Doc{ID: id, Fields: []FieldInst{IDField(id)}}
+		if i >= from {
+			for v := 0; v < 2; v++ {
+				d.Fields = append(d.Fields, FieldInst{Name: B("tag"), Typ: int('t'), AP: Ints{v}, Len: 2,
+					Toks: []Tok{{T: B("t"), Fr: 1, Locs: []Loc{{P: 1, S: 0, E: 1, AP: Ints{v}}}}, {T: B(fmt.Sprintf("u%d", (i+v)%3)), Fr: 1, Locs: []Loc{}}}})
+			}
+		} else if i%4 == 0 {
+			d.Fields = append(d.Fields, FieldInst{Name: B("tag"), Typ: int('t'), Len: 1, Toks: []Tok{{T: B("u0"), Fr: 1, Locs: []Loc{}}}})
+		}
+		d.Canon()
+		docs[i] = d
+	}
+	for _, mode := range []int{1026, 1025} {
+		h := l.Build(docs, mode)
+		if h == nil {
+			continue
+		}
+		if mode == 1026 {
+			if k := l.Persist(h); l.files[k] != nil {
+				if o := l.Open(k); o != nil {
+					l.Close(o)
+				}
+			}
+		}
+		l.Close(h)
+	}
+}
+
 // WideScenario: a segment with more than 128 fields goes through every writer and reader once: built,
 // persisted, re-opened, merged with deletions (alone and with a second wide segment), merged again.
 func (l *Life) WideScenario(p *GenProfile, tag string) {
